@@ -359,9 +359,9 @@ func addUcases(o *output, stream string, strat int, sys resolve.System, cl resol
 			indep = byReq || (oks == okb && sb == base)
 		}
 		s := fmt.Sprintf("{| u_strategy := %d; u_level := %s; u_known := %v; u_cmp := %s; u_dif := %s; u_op := %d; u_listed := %v; u_honoured := %v; u_indep := %v; u_consistent := %v |}",
-			strat, levelCoq(lv), known, cmpCoq(cmp), diffCoq(dif), op, listed(u), honoured, indep, cons)
+			strat, levelCoq(lv), known, cmpCoq(cmp), diffCoq(dif), op, !(known && cmp == 0 && base != nw), honoured, indep, cons)
 		side := map[string]any{"strategy": []string{"update", "relax", "override"}[strat], "update": map[string]any{"name": u.Name, "from": u.VersionFrom, "to": u.VersionTo, "transitive": u.Transitive},
-			"level": levelCoq(lv), "resolved_without": base, "resolved_with": nw, "known": known, "honoured": honoured, "independent_of_other_updates": indep, "resolved_originally": orig, "judged_on_requirement": byReq, "diff": dif.String(), "nontrivial": true}
+			"level": levelCoq(lv), "resolved_without": base, "resolved_with": nw, "known": known, "listed": !(known && cmp == 0 && base != nw), "consistent": cons, "honoured": honoured, "independent_of_other_updates": indep, "resolved_originally": orig, "judged_on_requirement": byReq, "diff": dif.String(), "nontrivial": true}
 		for k, v := range info {
 			side[k] = v
 		}
@@ -382,10 +382,15 @@ func streamUpdate(o *output, r *rand.Rand, n int) {
 				m.Deps[k].Req = "${some.version}"
 			}
 		}
+		dupName := ""
 		if i%3 == 1 {
-			addDuplicateDeclarations(r, u, &m)
+			dupName = addDuplicateDeclarations(r, u, &m)
 		}
 		cfg := genConfig(r, u)
+		if dupName != "" && r.Intn(4) != 0 {
+			// the declarations lie a minor or major step apart: a level below major makes their targets differ
+			cfg.Set(dupName, pick(r, []upgrade.Level{upgrade.Minor, upgrade.Minor, upgrade.Patch}))
+		}
 		ignoreDev := r.Intn(3) == 0
 		runUpdateCase(o, u, m, cfg, ignoreDev, "")
 	}
@@ -511,41 +516,19 @@ func runUpdateCase(o *output, u *universe, m manifestSpec, cfg upgrade.Config, i
 }
 
 // reqListed: the domain D of the update oracle at manifest level: Compare is a total preorder on the
-// package's versions and no two different version strings, the declared one included, compare equal
-// (an update from "1.0" to a listed "1.0.0" would not be strictly upward).
+// package's versions together with the declared one.
 func reqListed(u *universe, name, req string) bool {
-	vs := u.versionStrings(name)
-	all := append([]string{}, vs...)
+	all := append([]string{}, u.versionStrings(name)...)
 	if c, err := semver.Maven.ParseConstraint(req); err == nil && c.IsSimple() {
-		listed := false
-		for _, v := range vs {
-			listed = listed || v == req
-		}
-		if !listed {
-			all = append(all, req)
-		}
+		all = append(all, req)
 	}
-	ri := ranksOf(semver.Maven, all)
-	if !ri.consistent {
-		return false
-	}
-	seen := map[int64]bool{}
-	for _, v := range all {
-		if !ri.parses[v] {
-			continue
-		}
-		if seen[ri.rank[v]] {
-			return false
-		}
-		seen[ri.rank[v]] = true
-	}
-	return true
+	return ranksOf(semver.Maven, all).consistent
 }
 
 // addDuplicateDeclarations declares one package of the manifest a second (and sometimes third) time,
 // at a different listed version, in dependencyManagement / a profile / a pluginManagement plugin, and
 // puts the lower declaration second so that the first one is the one most likely to get an update.
-func addDuplicateDeclarations(r *rand.Rand, u *universe, m *manifestSpec) {
+func addDuplicateDeclarations(r *rand.Rand, u *universe, m *manifestSpec) string {
 	var cands []int
 	for i, d := range m.Deps {
 		if !d.Mgmt && len(u.versionStrings(d.Name)) >= 3 {
@@ -553,7 +536,7 @@ func addDuplicateDeclarations(r *rand.Rand, u *universe, m *manifestSpec) {
 		}
 	}
 	if len(cands) == 0 {
-		return
+		return ""
 	}
 	i := pick(r, cands)
 	name := m.Deps[i].Name
@@ -584,4 +567,5 @@ func addDuplicateDeclarations(r *rand.Rand, u *universe, m *manifestSpec) {
 		lo = pick(r, sorted)
 		count("duplicate_declaration", kind)
 	}
+	return name
 }
